@@ -41,7 +41,7 @@ pub enum Ev {
     Lie(u8),
 }
 
-pub const HARD_KINDS: [ErrorKind; 8] = [
+pub const HARD_KINDS: [ErrorKind; 24] = [
     ErrorKind::Other,
     ErrorKind::UnexpectedEof,
     ErrorKind::BrokenPipe,
@@ -50,8 +50,25 @@ pub const HARD_KINDS: [ErrorKind; 8] = [
     ErrorKind::PermissionDenied,
     ErrorKind::InvalidData,
     ErrorKind::ConnectionReset,
+    ErrorKind::FileTooLarge,
+    ErrorKind::StorageFull,
+    ErrorKind::OutOfMemory,
+    ErrorKind::InvalidInput,
+    ErrorKind::NotFound,
+    ErrorKind::AlreadyExists,
+    ErrorKind::Unsupported,
+    ErrorKind::WriteZero,
+    ErrorKind::ConnectionAborted,
+    ErrorKind::NotConnected,
+    ErrorKind::ResourceBusy,
+    ErrorKind::Deadlock,
+    ErrorKind::IsADirectory,
+    ErrorKind::StaleNetworkFileHandle,
+    ErrorKind::QuotaExceeded,
+    ErrorKind::ArgumentListTooLong,
 ];
-pub const HARD_ERRNOS: [i32; 3] = [5 /*EIO*/, 28 /*ENOSPC*/, 11 /*EAGAIN*/];
+/// raw OS error numbers (EINTR = 4 is the transient one and is not in this list)
+pub const HARD_ERRNOS: [i32; 40] = [1, 2, 3, 5, 6, 7, 8, 9, 10, 11, 12, 13, 14, 16, 17, 19, 20, 21, 22, 23, 24, 25, 26, 27, 28, 29, 30, 31, 32, 36, 61, 71, 74, 75, 84, 104, 110, 111, 121, 122];
 /// hard errors whose *payload* is one of the library's own error values (a reader may wrap anything)
 pub const HARD_FOREIGN: usize = 2;
 pub const HARD_TOTAL: usize = HARD_KINDS.len() + HARD_ERRNOS.len() + HARD_FOREIGN;
